@@ -38,6 +38,7 @@ type Contract struct {
 type AssertAt struct {
 	Assume bool // an explicit, listed assumption instead of an obligation
 	Anchor string
+	Nth    int // if > 0: the Nth statement (in block order) whose source line contains Anchor
 	Clause *Clause
 	Used   bool
 }
@@ -298,15 +299,19 @@ func (r *Registry) loadContractFile(path string, pkgPath string) error {
 			if cur == nil {
 				return fail("assert_at outside func")
 			}
-			m := regexp.MustCompile(`^"((?:[^"\\]|\\.)*)"\s*:\s*(.+)$`).FindStringSubmatch(s.rest)
+			m := regexp.MustCompile(`^"((?:[^"\\]|\\.)*)"(#\d+)?\s*:\s*(.+)$`).FindStringSubmatch(s.rest)
 			if m == nil {
-				return fail(`assert_at needs '"anchor text": expr'`)
+				return fail(`assert_at needs '"anchor text"[#n]: expr'`)
 			}
-			e, err := parseCExpr(m[2])
+			e, err := parseCExpr(m[3])
 			if err != nil {
 				return fail("%v", err)
 			}
-			cur.AssertsAt = append(cur.AssertsAt, &AssertAt{Assume: s.kw == "assume_at", Anchor: m[1], Clause: &Clause{Text: m[2], Expr: e, Src: s.src}})
+			nth := 0
+			if m[2] != "" {
+				nth, _ = strconv.Atoi(m[2][1:])
+			}
+			cur.AssertsAt = append(cur.AssertsAt, &AssertAt{Assume: s.kw == "assume_at", Anchor: m[1], Nth: nth, Clause: &Clause{Text: m[3], Expr: e, Src: s.src}})
 		case "loop":
 			if cur == nil {
 				return fail("loop outside func")
